@@ -13,8 +13,9 @@ UNIT_ALIASES = {"identifier_ic": ("identifier", ["--cfg", 'feature="ignore_case"
 
 MATRIX_FNS = ["matrix", "lemma_cell_sem", "lemma_cmp_rekey", "lemma_cell_missing", "lemma_row_eval", "lemma_row_cells", "lemma_conj_true", "lemma_row_sem", "lemma_rows_eval", "lemma_matrix_defined", "lemma_matrix_sem", "lemma_or_true", "lemma_cell_wf", "lemma_row_wf", "lemma_matrix_wf", "lemma_row_srcs", "lemma_matrix_truth", "lemma_or_arm", "lemma_or_arm_ident", "lemma_or_arm_head", "lemma_or_plain", "lemma_and_arm", "lemma_be_arm", "lemma_negate_arm", "lemma_nested_arm", "lemma_nested_truth", "lemma_nested_exact", "lemma_nested_array_truth", "lemma_nested_array_exact", "lemma_or_free_head", "lemma_match_single", "lemma_match_group", "lemma_post_refl", "lemma_mx_empty", "lemma_mx_push_row", "lemma_mx_push_rest", "lemma_row_from_lookup", "lemma_row_single"]
 
+FRAME_FNS = ["lemma_frame", "lemma_frame_group", "lemma_frame_match", "lemma_frame_leaf", "lemma_frame_cmp", "lemma_frame_row", "lemma_frame_rows", "lemma_frame_defined", "lemma_frame_elems", "lemma_agree_elem"]
 REWRITE_FNS = ["rewrite_search", "rewrite", "lemma_rw_refl", "lemma_rw_wf"]
-BATCH_FNS = ["batch", "seqtail", "lemma_single_quant", "lemma_ac_search", "lemma_ac_member", "lemma_ac_any", "lemma_single_kind", "lemma_exact_empty", "lemma_any_ctx_push", "lemma_any_regex_push", "lemma_any_group_push", "lemma_any_ident_take", "lemma_group_ok_push"]
+BATCH_FNS = ["batch", "seqtail", "shake_needles", "lemma_pairs_aligned", "lemma_pairs_any", "lemma_single_quant", "lemma_ac_search", "lemma_ac_member", "lemma_ac_any", "lemma_single_kind", "lemma_exact_empty", "lemma_any_ctx_push", "lemma_any_regex_push", "lemma_any_group_push", "lemma_any_ident_take", "lemma_group_ok_push"]
 
 PROPS = {
     "C15": {
@@ -54,19 +55,19 @@ PROPS = {
     "C10": {
         "units": {"paths": ["ObjectV::find", "ObjectVS::find"], "solver": ["solve_expression"]},
         "explanation": "the default Object::find body is proved equal to path_lookup (descend objects, name[i] = i-th array element, any missing/ill-shaped step => None) for keys of any length; Nested object/scalar arms proved in solve_expression",
-        "assumptions": ["str::split / Array::iter().nth / Object::get wrappers (trusted specs)", "index text parsing (strip_suffix + parse::<usize>) uninterpreted", "sync-feature copy of find is textually identical (diffed by the check)", "Nested-over-array arm is a hole"],
+        "assumptions": ["str::split / Array::iter().nth / Object::get wrappers (trusted specs)", "index text parsing (strip_suffix + parse::<usize>) uninterpreted", "sync-feature copy of find is textually identical (diffed by the check)", "Nested over an array: the default case ('some element satisfies the block') is verified; the all()-of-several-blocks and matrix-in-array forms are holes"],
     },
     "C01": {
         "units": {"optimiser": ["coalesce", "shake_0", "lemma_congruences", "lemma_nested_congruence", "lemma_nested_array_congruence", "lemma_match_coalesce",
                                  "lemma_congruences_all", "lemma_same_refl", "lemma_same_trans", "lemma_group_equiv", "lemma_group_single", "lemma_merge", "lemma_be_congr", "lemma_three",
                                  "lemma_sems_concat", "lemma_sems_defined", "lemma_has_ident_elem", "lemma_and3_concat", "lemma_or3_concat", "lemma_single", "lemma_and3_3", "lemma_or3_3"],
-                  "matrix": MATRIX_FNS, "rewrite": REWRITE_FNS},
-        "explanation": "coalesce is proved to preserve sem3 for every document (three-valued equality, so also under negation), to remove every identifier (so clearing the identifier table is sound) and never to hit its expect(); shake_0 (and/or flattening, group-of-one unwrapping) is proved to preserve sem3 for every identifier table and document, arm by arm, through flattening lemmas over and3/or3; matrix() (all 358 lines, both passes, every loop) is proved against a structural relation - every disjunct of an or-group becomes either a row whose cells are exactly its conjuncts, re-keyed to the column of their field, or stays as it is - and that relation is proved to imply that the rewritten or-group is TRUE for exactly the same documents (cell -> row -> rows -> matrix lemmas over the solver's own cache-fold semantics), with full three-valued equivalence wherever no or-group is rewritten; termination of matrix() and coalesce() is proved (decreases expression); rewrite() / rewrite_search() are proved panic-free and terminating and to return the same expression with some regex searches rebuilt (same field, cast flag, case flag and kind: rw_rel), which keeps well-formedness (lemma_rw_wf)",
+                  "matrix": MATRIX_FNS, "rewrite": REWRITE_FNS, "batch": BATCH_FNS},
+        "explanation": "coalesce is proved to preserve sem3 for every document (three-valued equality, so also under negation), to remove every identifier (so clearing the identifier table is sound) and never to hit its expect(); shake_0 (and/or flattening, group-of-one unwrapping) is proved to preserve sem3 for every identifier table and document, arm by arm, through flattening lemmas over and3/or3; matrix() (all 358 lines, both passes, every loop) is proved against a structural relation - every disjunct of an or-group becomes either a row whose cells are exactly its conjuncts, re-keyed to the column of their field, or stays as it is - and that relation is proved to imply that the rewritten or-group is TRUE for exactly the same documents (cell -> row -> rows -> matrix lemmas over the solver's own cache-fold semantics), with full three-valued equivalence wherever no or-group is rewritten; termination of matrix() and coalesce() is proved (decreases expression); rewrite() / rewrite_search() are proved panic-free and terminating and to return the same expression with some regex searches rebuilt (same field, cast flag, case flag and kind: rw_rel), which keeps well-formedness (lemma_rw_wf); of shake_1, the block that re-merges the plain searches of one (field, cast, case) key (slice shake_needles) is proved to add exactly one search that means 'some member matches' under the members' own case rule",
         "assumptions": ["shake_0: termination not proved; Match arm and Nested-over-block arm are holes; double negation removal is known finding C01-KF1",
                         "matrix(): only truth-equivalence holds for a rewritten or-group (False/Missing may swap): the contract claims it where no rewritten or-group sits under a negation (neg_safe) - the rest is known finding C01-KF2; all()/of() heads directly under a nested key are outside the claim",
                         "matrix(): shake_1 (called on the operands of all()/of()) is not under contract: sh_post is assumed; HashMap::into_iter / sort_by / map-collect / values / String == String are expression holes with the std contract stated in prelude/mxspecs.rs; the u32 field counter is assumed not to overflow",
                         "rewrite_search: that a regex with its leading/trailing '.*' removed accepts the same strings is NOT proved (the regex language is uninterpreted; RegexSetBuilder's inputs are not modelled)",
-                        "shake_1 is not under contract (HashMap iteration over tuple keys, unzip, seven sort_by closures, automaton/regex builders: outside Verus)",
+                        "shake_1 is not under contract except for the shake_needles slice (HashMap iteration over tuple keys, seven sort_by closures, regex rebuilding: outside Verus)",
                         "Rule::optimise (the sequencing of the four passes) is not under contract"],
     },
     "C09": {
@@ -96,9 +97,9 @@ PROPS = {
                         "known finding C08-KF1: all()/of() over a list batched into more than one search evaluates each search as 'some member matches'"],
     },
     "C16": {
-        "units": {"solver": ["solve_expression", "match_all", "match_of", "solve", "Cache::find", "Passthrough::find"], "paths": ["ObjectV::find", "ObjectVS::find"]},
-        "explanation": "Document::find carries the precondition dm_permits(self.model(), key); solve/solve_expression/match_all/match_of require permitted(e, ids, doc) = every key in asks(e, ids) (the field names written in the rule; for a nested block only the block's own key) is permitted, and every find call site in them is a discharged obligation: the key passed is one the rule writes. The private Cache document only permits one-character column keys below its width.",
-        "assumptions": ["Matrix arms are holes, so 'synthetic keys never reach the user's document' is assumed there", "invariance under unaddressed fields needs the frame lemma over sem3 (not yet proved)"],
+        "units": {"solver": ["solve_expression", "match_all", "match_of", "solve", "Cache::find", "Passthrough::find"], "paths": ["ObjectV::find", "ObjectVS::find"], "frame": FRAME_FNS},
+        "explanation": "Document::find carries the precondition dm_permits(self.model(), key); solve/solve_expression/match_all/match_of require permitted(e, ids, doc) = every key in asks(e, ids) (the field names written in the rule; for a nested block only the block's own key) is permitted, and every find call site in them is a discharged obligation: the key passed is one the rule writes. The private Cache document only permits one-character column keys below its width, and the Matrix arm of solve_expression is verified: the user's document is only asked for the column names, the synthetic one-character keys only reach the Cache. lemma_frame (induction over sem3, incl. the Matrix cache fold): two documents that answer every asked key alike get the same three-valued result - so adding, removing or altering a field no predicate addresses cannot change a verdict.",
+        "assumptions": ["lemma_frame excludes all()/of() applied directly to a Matrix (uninterpreted hole of the solver spec: frame_ok)", "nested all()-of-blocks over an array and matrix-in-array arms of solve_expression are holes"],
     },
     "C17": {
         "units": {"solver": ["solve_expression", "lemma_or3_reorder", "lemma_and3_truth_reorder", "lemma_reorder_same_values", "lemma_binary_commute", "lemma_of0_reorder", "lemma_group_reorder", "lemma_and3_true_iff", "lemma_and2", "lemma_or2", "search"], "matrix": MATRIX_FNS, "batch": BATCH_FNS},
